@@ -242,7 +242,7 @@ func e1ModeFor(prop string) E1Mode {
 	case "C11":
 		m.MaxRPCs, m.MetaP, m.CancelP, m.Misbehave, m.ForceSoftC = 6, 0.7, 0.35, 0.3, -1
 	case "C12":
-		m.MaxRPCs, m.CloseFaults, m.Duplex, m.StallP, m.ServeP, m.NoInact, m.CloserP = 3, 0, 0.3, 0, 0.5, true, 0.2
+		m.MaxRPCs, m.CloseFaults, m.Duplex, m.StallP, m.ServeP, m.NoInact, m.CloserP, m.SmallNet, m.Misbehave = 3, 0, 0.3, 0.3, 0.5, true, 0.2, 0.3, 0.3
 	case "C13":
 		m.MaxRPCs, m.Byz, m.MetaP, m.ErrP = 4, 1.0, 0.4, 0.3
 	case "C18":
